@@ -469,6 +469,14 @@ def work(chunk_id, payload):
         d = seeds[nm]
         nm_ = nm
         for _ in range(int(rng.choice([1, 1, 1, 2, 3]))):
+            if rng.random() < 0.12:
+                # lines of another seed file with the same extension
+                ext = os.path.splitext(nm)[1]
+                same = [x for x in names if x.endswith(ext) and x != nm]
+                if same:
+                    d = gen_files.splice(d, seeds[same[int(rng.integers(
+                        0, len(same)))]], rng)
+                    continue
             d = gen_files.mutate(d, rng)
         if rng.random() < 0.03:
             d = bytes(rng.integers(0, 256, int(rng.integers(0, 200)),
@@ -550,7 +558,10 @@ def main():
              "legacy V2 calibration file; inputs = 1..3 stacked structure-aware "
              "mutations (truncate, token delete/dup/swap, number and keyword "
              "substitution, line edits, byte flips, invalid UTF-8, YAML node "
-             "type and indentation changes, chunk repetition), truncation at "
+             "type and indentation changes, chunk repetition, block deletion, "
+             "lines spliced in from another seed of the same kind), every "
+             "second vnadata load into an object that held other data "
+             "(differential against a fresh one), truncation at "
              "byte offsets of the small seeds, and random bytes; distinct = "
              "distinct (loader, outcome, error-message tail or loaded shape)",
         min_events=100,
